@@ -357,6 +357,10 @@ def _run_chunk(exe, driver, items, env, timeout, extra_args, deaths=None):
                 n += 1
             if begun < n:
                 # died between items (e.g. at exit) -- attribute to the batch end
+                if n == 0 and not res and not r.timed_out:
+                    # nothing was processed at all: the interpreter under test could not load or start the driver, a
+                    # fixed, valid Janet program that runs on the unchanged tree
+                    raise DriverStartupError("the driver program %s does not run on this tree: %s" % (driver, r.describe()))
                 raise HarnessError("batch driver %s died outside an item: %s" % (driver, r.describe()))
             kind = "TIMEOUT" if r.timed_out else "CRASH"
             out[offset + n] = (kind, r.describe())
@@ -543,6 +547,10 @@ class Check:
         sys.exit(1 if self.violations else 0)
 
 
+class DriverStartupError(HarnessError):
+    """the interpreter built from the tree under test fails on the check's own driver before any item is run"""
+
+
 def harness_guard(fn):
     """Run a check's main; harness errors exit 3 (never a VIOLATION line). Exception: when violations have already
     been reported in this run, an internal inconsistency met afterwards (a driver that dies, an outcome that does not
@@ -552,6 +560,15 @@ def harness_guard(fn):
         fn()
     except HarnessError as e:
         chk = Check.current
+        if chk is not None and isinstance(e, DriverStartupError):
+            # A valid program (the driver and the prelude it imports) is rejected or dies on this tree. It is reported
+            # as a violation: the interpreter misbehaves on an input that the unchanged tree runs. (If the cause were the
+            # installation - a missing file, an unwritable directory - the check is broken either way.)
+            chk.violation("driver-program-fails", "%s" % str(e)[:1500],
+                          "# the interpreter built from this tree cannot run the check's driver (engine/drv/prelude.janet + the "
+                          "property's driver), which the unchanged tree runs; error:\n# %s\n" % str(e)[:1500].replace("\n", "\n# "))
+            chk.cap("no exploration: the driver does not run on this tree")
+            chk.finish()
         if chk is not None and chk.violations > 0:
             print("NOTE: stopped early after %d violation(s): %s" % (chk.violations, str(e)[:600]))
             chk.cap("stopped early: inconsistent harness state after violations were found (%s)" % str(e)[:200])
